@@ -224,7 +224,7 @@ func run(p *props.Prop, tier, repo, verif string, dump, noctl bool) int {
 func runAllMutants(p *props.Prop, repo string) []core.Control {
 	ms := mutants.For(p.ID)
 	out := make([]core.Control, len(ms))
-	sem := make(chan struct{}, 6)
+	sem := make(chan struct{}, 4)
 	var wg sync.WaitGroup
 	self, _ := os.Executable()
 	for i, m := range ms {
@@ -234,6 +234,8 @@ func runAllMutants(p *props.Prop, repo string) []core.Control {
 			sem <- struct{}{}
 			defer func() { <-sem }()
 			cmd := exec.Command(self, "-property", p.ID, "-repo", repo, "-mutant", m.Name)
+			// many concurrent loads with GOMAXPROCS=16 each thrash (measured); cap the children
+			cmd.Env = append(os.Environ(), "GOMAXPROCS=4")
 			data, err := cmd.Output()
 			var ctl core.Control
 			if err != nil || json.Unmarshal(data, &ctl) != nil {
